@@ -113,6 +113,9 @@ func applySet(skel *Skeleton, op Op, path *Path) error {
 	if len(op.Value) == 0 {
 		return fmt.Errorf("%w: SET requires Value", ErrInvalidOp)
 	}
+	if err := validateOpValue(op.Value); err != nil {
+		return err
+	}
 
 	cur, err := path.Resolve(skel)
 	if err != nil {
@@ -179,6 +182,17 @@ func applyDelete(skel *Skeleton, path *Path) error {
 		cur.Parent.ArrayItems = append(cur.Parent.ArrayItems[:idx], cur.Parent.ArrayItems[idx+1:]...)
 	case SegAppend:
 		return fmt.Errorf("%w: DELETE cannot target append marker", ErrPathInvalid)
+	}
+	return nil
+}
+
+// validateOpValue rejects a value that is not exactly one well-formed msgpack
+// value (as accepted by Parse). Op values are spliced into the blob verbatim,
+// so an unchecked value (unknown type code, truncated, trailing bytes,
+// non-string map key) would leave a blob that Parse no longer accepts.
+func validateOpValue(raw []byte) error {
+	if _, err := Parse(raw); err != nil {
+		return err
 	}
 	return nil
 }
